@@ -524,3 +524,64 @@ def rule_LZ(ctx, F):
         ctx.ob(ok, "chunk-closed-only-with-more-input", t.get("s"),
                "push_cv(self.chunk_state.output().chaining_value(), ..) is dominated by `input` being non-empty: %s" % ok)
     ctx.floor("pushes of the current chunk's own chaining value in update", n, 1)
+
+
+ZP_TABLE = {"blake3": ("ChunkState", "buf", "buf_len"), "reference_impl": ("ChunkState", "block", "block_len")}
+
+
+def rule_ZP(ctx, F):
+    """zero padding of the block buffer.  The last block of a chunk is compressed from the WHOLE 64-byte buffer with block_len
+    saying how much of it is message, so the spec's zero padding is the invariant `buf[buf_len..] == 0`.  Its structural part:
+    (a) wherever the length field is set back to the constant 0 the same straight-line code zeroes the whole buffer of the same
+    object ([0; 64] store in the same basic block, or a `fill(0)` call on it in an adjacent block); (b) every aggregate
+    construction with length 0 takes an all-zero buffer; (c) the two fields are written only inside the struct's own methods"""
+    crate = F.crate if hasattr(F, "crate") else "blake3"
+    S, B, L = ZP_TABLE.get(crate, ZP_TABLE["blake3"])
+    n_reset = n_agg = 0
+    writers = set()
+    for path, f in sorted(F.fns.items()):
+        if not f.has_body:
+            continue
+        by_block = {}
+        for bi, si, s in f.stmts():
+            by_block.setdefault(bi, []).append((si, s))
+        for bi, sts in by_block.items():
+            for si, s in sts:
+                pl = s["place"]["p"]
+                last = pl[-1] if pl else None
+                if isinstance(last, dict) and last.get("of") == S and last.get("f") in (B, L):
+                    writers.add(path)
+                rv = s["rv"]
+                if isinstance(last, dict) and last.get("of") == S and last.get("f") == L and rv.get("k") == "use" and rv["op"].get("k") == "const" and rv["op"].get("val") == 0:
+                    n_reset += 1
+                    base = (s["place"]["l"], repr(pl[:-1]))
+                    ok = False
+                    for sj, t in sts:
+                        tp = t["place"]["p"]
+                        if tp and isinstance(tp[-1], dict) and tp[-1].get("of") == S and tp[-1].get("f") == B and (t["place"]["l"], repr(tp[:-1])) == base \
+                                and t["rv"].get("k") == "repeat" and t["rv"]["op"].get("k") == "const" and t["rv"]["op"].get("val") == 0 and t["rv"].get("n") == 64:
+                            ok = True
+                    if not ok:
+                        # a fill(0) call in this block's terminator or in a directly adjacent block
+                        near = [bi] + list(f.preds().get(bi, [])) + list(f.succ(bi))
+                        for b2 in near:
+                            t = f.blocks[b2]["term"]
+                            if t["k"] == "call" and "fill" in str(t.get("func", t.get("callee", ""))) and "'%s'" % B in str(f.blocks[b2]["stmts"]) + str(t):
+                                ok = True
+                    ctx.ob(ok, "zero-padding-on-length-reset:%s#%d" % (path, n_reset), s.get("s", f.loc),
+                           "%s.%s = 0 %s" % (S, L, "together with %s = [0; 64] on the same object" % B if ok else "without zeroing %s: stale bytes beyond %s would be compressed as padding" % (B, L)))
+                if rv.get("k") == "agg" and rv.get("adt") == S and L in rv.get("fields", []):
+                    ops = dict(zip(rv["fields"], rv["ops"]))
+                    if ops[L].get("k") == "const" and ops[L].get("val") == 0:
+                        n_agg += 1
+                        bo = ops[B]
+                        ok = False
+                        if bo.get("k") in ("move", "copy") and not bo["place"]["p"]:
+                            for sj, t in sts:
+                                if t["place"]["l"] == bo["place"]["l"] and not t["place"]["p"] and t["rv"].get("k") == "repeat" and t["rv"]["op"].get("val") == 0:
+                                    ok = True
+                        ctx.ob(ok, "zero-padding-at-construction:%s" % path, s.get("s", f.loc), "%s { %s: [0; 64], %s: 0 }: %s" % (S, B, L, ok))
+    own = [w for w in writers if not (w.startswith(S + "::") or ("<%s as " % S) in w)]
+    ctx.ob(not own, "buffer-fields-written-only-by-own-methods", "", "writers of %s.%s/%s: %s" % (S, B, L, sorted(writers)))
+    ctx.floor("length resets with zeroing", n_reset, 1)
+    ctx.floor("zero-length constructions", n_agg, 1)
